@@ -594,8 +594,83 @@ func analyseTokenClosure(p *Prog, ops *OpTable, fn *ssa.Function, env map[*types
 			if !ok || len(ret.Results) == 0 {
 				continue
 			}
-			call, ok := ret.Results[0].(*ssa.Call)
-			if !ok {
+			var call *ssa.Call
+			switch rv := ret.Results[0].(type) {
+			case *ssa.Call:
+				call = rv
+			case *ssa.Extract:
+				// return factory(args)(rawToken): (token, error) of a dynamic call
+				if cc, ok := rv.Tuple.(*ssa.Call); ok {
+					call = cc
+				}
+			}
+			if call == nil {
+				continue
+			}
+			// the result of calling the action that a factory of the package returns:
+			// `return opTokenWithPrefs(op, nil, prefs)(rawToken)`
+			if inner, isCall := call.Call.Value.(*ssa.Call); isCall && call.Call.StaticCallee() == nil {
+				f := inner.Call.StaticCallee()
+				if f != nil && f.Blocks != nil && f.Pkg != nil && f.Pkg.Pkg.Path() == p.LibPath {
+					var closure *ssa.Function
+					for _, fb := range f.Blocks {
+						if fr, ok := fb.Instrs[len(fb.Instrs)-1].(*ssa.Return); ok && len(fr.Results) == 1 {
+							rv0 := fr.Results[0]
+							if ct, ok := rv0.(*ssa.ChangeType); ok {
+								rv0 = ct.X
+							}
+							if mc, ok := rv0.(*ssa.MakeClosure); ok {
+								closure, _ = mc.Fn.(*ssa.Function)
+							}
+						}
+					}
+					if closure != nil {
+						env := map[*types.Var]*absVal{}
+						for i, fp := range f.Params {
+							v, ok := fp.Object().(*types.Var)
+							if !ok || i >= len(inner.Call.Args) {
+								continue
+							}
+							a := inner.Call.Args[i]
+							if mi, isMI := a.(*ssa.MakeInterface); isMI {
+								a = mi.X
+							}
+							switch x := a.(type) {
+							case *ssa.Global:
+								if gv, ok := x.Object().(*types.Var); ok {
+									env[v] = &absVal{kind: "global", global: gv}
+								}
+							case *ssa.UnOp:
+								if g, ok := x.X.(*ssa.Global); ok {
+									if gv, ok := g.Object().(*types.Var); ok {
+										env[v] = &absVal{kind: "global", global: gv}
+									}
+								}
+							case *ssa.Const:
+								if x.IsNil() {
+									env[v] = &absVal{kind: "nil"}
+								} else {
+									env[v] = &absVal{kind: "const", cval: x.Value}
+								}
+							}
+							if env[v] == nil {
+								env[v] = &absVal{kind: "opaque", typ: a.Type()}
+							}
+						}
+						tokenHelperDepth++
+						saved := curFactoryEnv
+						hs, prob := analyseTokenClosure(p, ops, closure, env)
+						curFactoryEnv = saved
+						tokenHelperDepth--
+						for i := range hs {
+							hs[i].Fn = ssaFuncName(fn) + "->" + hs[i].Fn
+						}
+						shapes = append(shapes, hs...)
+						if prob != "" && problem == "" {
+							problem = prob
+						}
+					}
+				}
 				continue
 			}
 			h := call.Call.StaticCallee()
